@@ -5,8 +5,10 @@ alias_visible over arbitrary op sequences; the code's copy-in / write-through / 
 parameters and `self` refines aliasing for callees that reach the object through the parameter only, and is
 refuted otherwise).
 Tie: random histories of writes, aggregate copies, pointer retargeting, calls (by value / T& / T* / array
-parameter / self, with generated callee bodies) and read-all-paths over a small object graph, printed as Cb
-programs and run on the real `main`; the transcript must equal the extracted model's (bin/c07_model).
+parameter / self, with generated callee bodies; receivers by name, p->, (*p)., element, parameter, self; exits by
+falling off the end, `return;`, `return e;`; calls made from inside callee bodies) and read-all-paths over a small
+object graph, printed as Cb programs and run on the real `main`; the transcript must equal the extracted model's
+(bin/c07_model).
 The implementation's double representation of structs (member map + flattened variables) is NOT modelled:
 the generator stays inside the fragment where main and the model agree and every excluded form is a recorded
 known finding that is re-confirmed on every run.
@@ -1149,7 +1151,7 @@ def norm_shadow(tr):
 P_TYPED = r"(P|PS\[\]|par<[a-z]+ P>|par<arr PS>\[\]|\*\([^)]*=>(P|PS\[\])\))"
 AVOID = [
     # --- struct arrays
-    ("C07-structarray-elem-whole", r"\|(decl|cp[ds]|retd?|recv|addr|argptr)\|(PS|ES)\[\]"),
+    ("C07-structarray-elem-whole", r"\|(decl|cp[ds]|retd?|addr|argptr)\|(PS|ES)\[\]|\|recv\|PS\[\]"),
     ("C07-structarray-elem-array-member-rejected", r"\|PS\[\]\.arr"),
     ("C07-structarray-param", r"\|argarr\|(PS|ES)|par<arr (PS|ES)>"),
     # --- pointers
@@ -1172,6 +1174,7 @@ AVOID = [
     ("C07-ref-param-passed-by-value-aliases", r"\|argval\|par<ref"),
     ("C07-self-passed-by-reference-no-writethrough", r"\|arg(ref|ptr)\|par<self"),
     ("C07-nested-member-dest-call-result-lost", r"\|retdi\|.*\.inner\."),
+    ("C07-ref-member-dest-call-result-misplaced", r"\|retdi\|par<ref \w+>\."),
     ("C07-self-call-return-exit-write-lost", r"\|recv\|par<self [^|]*\|.*R"),
     ("C07-array-element-dest-call-evaluated-twice", r"\|retdi\|.*\[\]"),
     ("C07-self-writethrough-stale", r"^[STU].\|[^|]*\|(In|P|Q|PS|ES)|^[STU].\|[^|]*\|\*\("),
@@ -1379,21 +1382,33 @@ META = {
             "copy-in / write-through / copy-back (call_impl.cpp, cleanup.cpp:155, statement_executor.cpp:720); it is PROVED equal to "
             "aliasing (same transcript, same caller-visible heap) for every heap, parameter list and deref-free callee body that "
             "satisfies the executable exclusivity condition call_ok, and REFUTED without it (three witnesses, confirmed on the binary). "
+            "Also proved: the same visibility for EVERY receiver/argument expression (c.m(), p->m(), (*p).m()) and EVERY exit form of "
+            "the callee (falls off the end, return into a fresh variable, return into a destination), for a method invoked by a "
+            "function that received &c (calls made from inside a callee body are part of the model: exec_call_in / OCall2, a "
+            "conservative extension), and the refinement copy-back = aliasing for arguments containing dereferences (normalisation). "
             "Tie on every run: random histories (<= 60 ops quick) of scalar writes through random access paths, aggregate copies, "
-            "pointer retargeting, declarations, calls with generated callee bodies (by value, T&, T*, array parameter, self, by-value "
-            "return) and reads of cells through every available path (plain, string interpolation, temporary) over an object graph "
-            "(struct with scalar, nested-struct and array members, struct arrays, flat structs, int arrays, three pointers), printed as "
-            "Cb programs and run on main built from the current tree; the transcript must equal the extracted model's. The generator "
-            "stays inside the fragment where main and the model agree; every excluded family of forms is a recorded known finding "
-            "(28 entries) that is replayed on every run.",
+            "pointer retargeting, declarations, calls of functions and methods with generated callee bodies (by value, T&, T*, array "
+            "parameter, self; receivers by name, p->, (*p)., struct-array element, parameter, self; int/string extra parameters; "
+            "nested calls from callee bodies; exits: falling off the end, `return;`, `return e;` with int, string or struct results "
+            "into a destination or a fresh variable) and reads of cells through every available path (plain, string interpolation, "
+            "temporary; after calls: every cell the callee could reach) over an object graph (struct with scalar, nested-struct and "
+            "array members, struct arrays, flat structs with int/string/double members, int arrays, four pointers), printed as Cb "
+            "programs and run on main built from the current tree; the transcript must equal the extracted model's. A conflict stream "
+            "(array parameters and self receivers by name / p-> / (*p). x three exits, callee also using the global name) makes "
+            "main follow the modelled copy-back mechanism where it differs from aliasing. The generator stays inside the fragment "
+            "where main and the model agree; every excluded family of forms is a recorded known finding (46 entries) that is "
+            "replayed on every run.",
     "note": "PARTIAL: the implementation's double representation of struct values (member map + flattened 'a.b.c' variables, "
-            "managers/structs/*.cpp) is NOT modelled; the 18 avoidance rules cut away most whole-struct copies of structs with "
+            "managers/structs/*.cpp) is NOT modelled; the 29 avoidance rules cut away most whole-struct copies of structs with "
             "nested/array members, struct-array elements as whole values, pointers to members, methods on such structs (all defects "
             "of that mechanism). Trusted: Coq kernel (vm_compute for the three witnesses), no axioms (Print Assumptions: closed); "
             "extraction ExtrOcamlBasic+ExtrOcamlString; hand-written model tied by differential testing only; the Python printer of "
             "histories to Cb text and the Python shadow heap (cross-checked against the extracted model on every case). The "
-            "refinement theorem covers callee bodies/arguments without dereferences and without &; copy-back order = parameter-name "
-            "order (std::map), equal to binding order for the generated names q0..q2.",
+            "refinement theorems cover callee bodies without dereferences, without & and without nested calls (arguments may "
+            "dereference); for nested calls copy-back = aliasing is tested only; a receiver reached through a pointer is not written "
+            "through by the code (model: written through; differs only for by-name reads inside the method, recorded finding); "
+            "copy-back order = parameter-name order (std::map), equal to binding order for the generated names q0..q2 / r0..r2; "
+            "string members and pointer reads of non-string cells never share a history (recorded finding).",
 }
 
 
@@ -1539,7 +1554,7 @@ def run(rep):
             c = load_case(c)
             c["origin"] = "corpus"
             cases.append(c)
-    n_rand = 2400 if tier == "quick" else 60000
+    n_rand = 2000 if tier == "quick" else 60000
     maxlen = 60 if tier == "quick" else 90
     avoided = {}
     n_avoid_total = 0
@@ -1550,7 +1565,7 @@ def run(rep):
         for c, av in ex.map(_gen_job, jobs, chunksize=50):
             cases.append(c)
             n_avoid_total += av
-    n_conf = 240 if tier == "quick" else 6000
+    n_conf = 210 if tier == "quick" else 6000
     for k in range(n_conf):
         cases.append(gen_conflict(seed, k))
 
@@ -1667,7 +1682,7 @@ def run(rep):
             rep.violation("coqchk", {"output": summ[-3000:]}, "coqchk rejects the compiled C07 development", True)
     rep.assumptions += [
         "the double representation of struct values (member map + flattened variables) is not modelled; the main stream avoids "
-        "the forms on which it misbehaves (18 rules, props/c07.py AVOID), each documented by a replayed known finding",
+        "the forms on which it misbehaves (29 rules, props/c07.py AVOID), each documented by a replayed known finding",
         "the C++ behaves like the model on the fragment: differential testing on generated histories, not proof",
         "Python printer (history -> Cb text) and transcript parser are trusted; the Python shadow heap is cross-checked against the "
         "extracted Coq model on every case",
